@@ -42,18 +42,18 @@ func (c SrvCfg) opts() absnfs.ExportOptions {
 }
 
 type World struct {
-	cfg     SrvCfg
-	fs      *RefFS
-	srv     *Srv
-	root    uint64
-	clockNs int64
-	handles map[string]uint64 // what the client knows: path -> handle
-	inoAt   map[string]uint64 // identity of the object each known handle was obtained for
-	keepStale bool            // keep using handles whose object was replaced (default: re-LOOKUP like a client after ESTALE)
-	trace     []string        // the run as driver lines for the Lean server model ("srv ...")
-	traceWant []string        // what the model must answer to each line
+	cfg       SrvCfg
+	fs        *RefFS
+	srv       *Srv
+	root      uint64
+	clockNs   int64
+	handles   map[string]uint64 // what the client knows: path -> handle
+	inoAt     map[string]uint64 // identity of the object each known handle was obtained for
+	keepStale bool              // keep using handles whose object was replaced (default: re-LOOKUP like a client after ESTALE)
+	trace     []string          // the run as driver lines for the Lean server model ("srv ...")
+	traceWant []string          // what the model must answer to each line
 	noTrace   bool
-	step    time.Duration     // virtual time that passes before each request
+	step      time.Duration // virtual time that passes before each request
 }
 
 func newWorldOn(fs *RefFS, cfg SrvCfg) *World {
@@ -270,6 +270,8 @@ func (o SOp) String() string {
 		s += fmt.Sprintf(" %s how=%d verf=%x", o.Name, o.How, o.Verf)
 	case "symlink":
 		s += fmt.Sprintf(" %s -> %q", o.Name, o.Target)
+	case "mnt":
+		s += fmt.Sprintf(" as %q", o.Target)
 	case "rename":
 		s += fmt.Sprintf(" %s => %s %s", o.Name, o.Dir2, o.Name2)
 	case "read":
@@ -305,6 +307,8 @@ type SRes struct {
 	Res      NfsRes
 	Entries  []DirEntD // readdir/readdirplus: all pages
 	Pages    int
+	MntFh    uint64 // mnt: the handle MNT returned (0 if it failed)
+	MntStat  uint32
 }
 
 func (r SRes) ok() bool { return !r.NoHandle && !r.Res.Bad && r.Res.Status == 0 }
@@ -317,6 +321,24 @@ func (w *World) do(o SOp) SRes {
 	cred := o.Cred
 	if cred.Flavor == 0 && cred.Raw == nil {
 		cred = rootCred()
+	}
+	if o.Kind == "mnt" {
+		// MNT of o.Target (a spelling of the directory o.Dir), then GETATTR through the handle it returned
+		out := SRes{Proc: 1, MntStat: 0xffffffff}
+		rep := w.callRaw(progMount, 3, 1, cred, xdrOpaque([]byte(o.Target)))
+		out.Reply = rep
+		if rep.Err != nil || rep.Status != 0 || rep.AcceptStatus != 0 || len(rep.Data) < 4 {
+			out.Res = NfsRes{Status: 0xffffffff, Bad: true}
+			return out
+		}
+		out.MntStat = binary.BigEndian.Uint32(rep.Data)
+		if out.MntStat != 0 || len(rep.Data) < 16 {
+			out.Res = NfsRes{Status: out.MntStat}
+			return out
+		}
+		out.MntFh = binary.BigEndian.Uint64(rep.Data[8:16])
+		out.Reply, out.Res = w.nfs(1, cred, fh(out.MntFh))
+		return out
 	}
 	h, ok := w.handleFor(o.Dir, cred)
 	if !ok {
